@@ -19,6 +19,15 @@ The strings interpreted (trusted base) are the tables of `ConsoleInterpDefs.lean
 The listener's object state: `Started mode n k h` says that in the attribute store `h` the listener has mode `mode`, period
 `iters = n`, and a `FunctionConsoleFullOutput` with a `ConsoleOutputer` whose counter `self.iterNum` is `k`; this is what
 `BeforeMethodStart` leaves with `k = 1` (`beforeMethodStart_run`) and what every `OnEndIteration` preserves, incrementing `k`.
+
+Remarks (each is a `stuck` example in `IOptProofs/ConsoleInterp.lean` and was reproduced on the Python code):
+* a console listener attached after the first iteration is never told `BeforeMethodStart`; `self.__fcfo` stays `None` and
+  `OnMethodStop` raises `AttributeError` out of `Solve` - hence the hypothesis `Started`;
+* mode `'custom'` with `iters = 0` raises `ZeroDivisionError` in the first `OnEndIteration`; inside `Solve` it is swallowed by
+  `except BaseException` ("Exception was thrown") and the search ends after one trial - hence the hypothesis `n ≠ 0`;
+* the counter `self.iterNum` counts NOTIFICATIONS (calls of `DoGlobalIteration`), not trials, and mode `'full'` shows only
+  `savedNewPoints[0]`: after `DoGlobalIteration(3)` one line, numbered 1, with the first of the three new trials;
+* the `status` argument reaches `printResult` (parameter `solved`) but the line showing it is commented out in the source.
 -/
 
 namespace C13
